@@ -224,3 +224,234 @@ Lemma ex_digest_refs :
   slice (4294924022 - 4294924000) 5 (ser_list ex_digests) = [20;21;22;23;24] /\
   slice (4294924004 - 4294924000) 8 (ser_list ex_digests) = [1;2;3;4;5;6;7;8].
 Proof. repeat split; vm_compute; reflexivity. Qed.
+
+(** * A reused NodeVisitor: every Run is the walk of a fresh visitor *)
+
+Definition walk_of (r : vrun) : outcome (list range) :=
+  match r with (t, rows, fb) => walk rows fb t end.
+
+Lemma run_v_walk st rows fb t : fst (run_v st rows fb t) = walk rows fb t.
+Proof.
+  unfold run_v, walk. cbn [vs_rm vs_cm].
+  destruct (visit rows fb t false false None []) as [[rs cm]| | |]; reflexivity.
+Qed.
+
+Lemma walker_session_stateless st runs : vsession st runs = map walk_of runs.
+Proof.
+  revert st. induction runs as [|[[t rows] fb] tl IH]; intros st; [reflexivity|].
+  cbn [vsession map walk_of].
+  pose proof (run_v_walk st rows fb t) as H.
+  destruct (run_v st rows fb t) as [o st']. cbn [fst] in H. subst o.
+  rewrite IH. reflexivity.
+Qed.
+
+Definition run_rows_ok (r : vrun) : Prop :=
+  match r with (t, rows, fb) => rows_ok rows (pre t false) /\ offs_ok (pre t false) end.
+
+Definition run_denotes (r : vrun) (o : outcome (list range)) : Prop :=
+  match r with (t, rows, fb) =>
+    exists rs, o = Ok rs /\
+      Forall2 (denotes fb) (vis t false []) rs /\
+      Forall2 (fun p r => located p -> r = true_range (fst p)) (visp t false false) rs /\
+      (no_stop t = true -> map fst (vis t false []) = map fst (pre t false))
+  end.
+
+Lemma walker_session_partial st runs :
+  Forall run_rows_ok runs -> Forall2 run_denotes runs (vsession st runs).
+Proof.
+  rewrite walker_session_stateless.
+  induction 1 as [|[[t rows] fb] tl [Hr Ho] _ IH]; [constructor|].
+  cbn [map]. constructor; [|exact IH].
+  cbn [run_denotes walk_of].
+  destruct (walker_partial rows fb t Hr Ho) as (rs & E & Hd & _ & Hn).
+  destruct (walker_located rows fb t Hr Ho) as (rs' & E' & Hl & _).
+  rewrite E in E'. injection E' as <-.
+  exists rs. repeat split; assumption.
+Qed.
+
+(** The statement has teeth: a visitor that harvests the rows only on its first Run
+    ("build the map once per visitor") is NOT stateless -- second Run on the same image
+    behind a 4 KiB flash descriptor: the volume is reported where it was in the first image. *)
+Definition run_v_keep (st : vstate) (rows : rangemap) (fb : bool) (t : tree) : outcome (list range) * vstate :=
+  let rm := match vs_rm st with [] => rows | _ => vs_rm st end in
+  match visit rm fb t false false None [] with
+  | Ok (rs, cm) => (Ok rs, mkV rm cm)
+  | Err c => (Err c, mkV rm []) | Panic => (Panic, mkV rm []) | OutOfFuel => (OutOfFuel, mkV rm [])
+  end.
+
+Definition stale_t1 : tree := T 1 false false 0 8192 [T 2 false false 0 4096 []].
+Definition stale_t2 : tree := T 1 false false 0 12288 [T 2 false false 4096 4096 []].
+Definition stale_rows1 : rangemap := [(1, [(0, 8192)]); (2, [(0, 4096)])].
+Definition stale_rows2 : rangemap := [(1, [(0, 12288)]); (2, [(4096, 4096)])].
+
+Lemma stale_rows_ok t rows :
+  (t = stale_t1 /\ rows = stale_rows1) \/ (t = stale_t2 /\ rows = stale_rows2) ->
+  run_rows_ok (t, rows, false).
+Proof.
+  intros H. split.
+  - intros n Hn.
+    assert (E0 : (0 =? n) = false) by (apply Z.eqb_neq; lia).
+    destruct (Z.eq_dec n 1) as [->|N1];
+      [destruct H as [[-> ->]|[-> ->]]; vm_compute; repeat constructor|].
+    destruct (Z.eq_dec n 2) as [->|N2];
+      [destruct H as [[-> ->]|[-> ->]]; vm_compute; repeat constructor|].
+    assert (E1 : (1 =? n) = false) by (apply Z.eqb_neq; lia).
+    assert (E2 : (2 =? n) = false) by (apply Z.eqb_neq; lia).
+    destruct H as [[-> ->]|[-> ->]]; unfold has_name, stale_rows1, stale_rows2, stale_t1, stale_t2;
+      cbn [pre flat_map app orb rm_get filter t_name fst]; rewrite ?E1, ?E2, ?E0; constructor.
+  - intros p Hp.
+    destruct H as [[-> _]|[-> _]]; unfold stale_t1, stale_t2 in Hp; cbn [pre flat_map app orb] in Hp;
+      repeat (destruct Hp as [<-|Hp]; [cbn; unfold MAXU64; lia|]); destruct Hp.
+Qed.
+
+Lemma walker_stale_rows_witness :
+  run_rows_ok (stale_t1, stale_rows1, false) /\ run_rows_ok (stale_t2, stale_rows2, false) /\
+  let (o1, st1) := run_v_keep v_fresh stale_rows1 false stale_t1 in
+  let (o2, _) := run_v_keep st1 stale_rows2 false stale_t2 in
+  o1 = walk stale_rows1 false stale_t1 /\
+  o2 = Ok [(0, 12288); (0, 4096)] /\
+  walk stale_rows2 false stale_t2 = Ok [(0, 12288); (4096, 4096)].
+Proof.
+  split; [apply stale_rows_ok; left; split; reflexivity|].
+  split; [apply stale_rows_ok; right; split; reflexivity|].
+  vm_compute. repeat split.
+Qed.
+
+(** * Mapper sessions: arguments are never modified, answers depend on the arguments only *)
+
+Definition is_call (o : mop) : bool := match o with MCall _ _ _ _ _ _ => true | MWrite _ _ _ => false end.
+
+Lemma firstn_app_exact {A} (l m : list A) : firstn (length l) (l ++ m) = l.
+Proof. rewrite firstn_app, Nat.sub_diag, firstn_all. cbn. apply app_nil_r. Qed.
+
+(** one call: every array that existed before is exactly as it was (the one the argument is a
+    slice of included, all of it -- also the elements before, behind and beyond the slice),
+    and the answer is one new array *)
+Lemma mapper_call_preserves h which size bios a lo n :
+  let (res, h') := mop_step h (MCall which size bios a lo n) in
+  res = Some (pmm_apply which size bios (heap_slice h a lo n)) /\
+  firstn (length h) h' = h /\ length h' = S (length h) /\
+  nth (length h) h' [] = answer_array (pmm_apply which size bios (heap_slice h a lo n)).
+Proof.
+  cbn [mop_step]. split; [reflexivity|]. split; [apply firstn_app_exact|].
+  split; [rewrite app_length; cbn; lia|].
+  rewrite app_nth2, Nat.sub_diag; [reflexivity|lia].
+Qed.
+
+Lemma msession_calls_extend h ops :
+  forallb is_call ops = true ->
+  exists added, snd (msession h ops) = h ++ added /\ length added = length ops.
+Proof.
+  revert h. induction ops as [|o tl IH]; intros h Hc.
+  - exists []. cbn. rewrite app_nil_r. split; reflexivity.
+  - cbn [forallb] in Hc. apply andb_true_iff in Hc as [Ho Ht].
+    destruct o as [which size bios a lo n|]; [|discriminate].
+    cbn [msession mop_step].
+    destruct (IH (h ++ [answer_array (pmm_apply which size bios (heap_slice h a lo n))]) Ht) as (added & E & L).
+    destruct (msession _ tl) as [rs h2]. cbn [snd] in E |- *.
+    exists (answer_array (pmm_apply which size bios (heap_slice h a lo n)) :: added).
+    rewrite E, <- app_assoc. split; [reflexivity|cbn; lia].
+Qed.
+
+(** a whole session of calls: the caller's arrays at the end are what they were at the start *)
+Lemma mapper_session_frame h ops :
+  forallb is_call ops = true -> firstn (length h) (snd (msession h ops)) = h.
+Proof.
+  intros Hc. destruct (msession_calls_extend h ops Hc) as (added & E & _).
+  rewrite E. apply firstn_app_exact.
+Qed.
+
+Lemma heap_slice_app h added a lo n : (a < length h)%nat -> heap_slice (h ++ added) a lo n = heap_slice h a lo n.
+Proof. intros H. unfold heap_slice. rewrite app_nth1 by exact H. reflexivity. Qed.
+
+(** ... and the answer of EVERY call on one of the caller's arrays is the function of that
+    call's own arguments as they were when the session began -- whatever was converted before
+    (the same list, an overlapping slice, another direction, another artifact) *)
+Lemma mapper_session_independent h ops :
+  forallb is_call ops = true ->
+  forall k which size bios a lo n,
+    nth_error ops k = Some (MCall which size bios a lo n) -> (a < length h)%nat ->
+    nth_error (fst (msession h ops)) k = Some (Some (pmm_apply which size bios (heap_slice h a lo n))).
+Proof.
+  revert h. induction ops as [|o tl IH]; intros h Hc k which size bios a lo n Hk Ha.
+  - destruct k; discriminate.
+  - cbn [forallb] in Hc. apply andb_true_iff in Hc as [Ho Ht].
+    destruct o as [w0 s0 b0 a0 lo0 n0|]; [|discriminate].
+    cbn [msession mop_step].
+    specialize (IH (h ++ [answer_array (pmm_apply w0 s0 b0 (heap_slice h a0 lo0 n0))]) Ht).
+    destruct (msession _ tl) as [rs h2]. cbn [fst] in IH |- *.
+    destruct k as [|k].
+    + cbn in Hk. injection Hk as -> -> -> -> -> ->. reflexivity.
+    + cbn [nth_error] in Hk |- *.
+      rewrite (IH k which size bios a lo n Hk).
+      * rewrite heap_slice_app by exact Ha. reflexivity.
+      * rewrite app_length. cbn. lia.
+Qed.
+
+(** converting the same list twice gives the same answer twice *)
+Lemma mapper_session_twice h ops i j which size bios a lo n :
+  forallb is_call ops = true ->
+  nth_error ops i = Some (MCall which size bios a lo n) ->
+  nth_error ops j = Some (MCall which size bios a lo n) -> (a < length h)%nat ->
+  nth_error (fst (msession h ops)) i = nth_error (fst (msession h ops)) j /\
+  nth_error (fst (msession h ops)) i = Some (Some (pmm_apply which size bios (heap_slice h a lo n))).
+Proof.
+  intros Hc Hi Hj Ha.
+  rewrite (mapper_session_independent h ops Hc i _ _ _ _ _ _ Hi Ha).
+  rewrite (mapper_session_independent h ops Hc j _ _ _ _ _ _ Hj Ha). split; reflexivity.
+Qed.
+
+(** list -> addresses -> back (and the other way round), the second call being given the
+    ANSWER of the first: the original list, which is itself still in place *)
+Lemma mapper_session_roundtrip h size a lo n :
+  (a < length h)%nat -> Forall (fun r => u64 (fst r)) (heap_slice h a lo n) ->
+  let l := heap_slice h a lo n in
+  fst (msession h [MCall 3 size None a lo n; MCall 1 size None (length h) 0 (length l)])
+    = [Some (Ok (map_ranges (pmm_unresolve size) l)); Some (Ok l)] /\
+  fst (msession h [MCall 0 size None a lo n; MCall 2 size None (length h) 0 (length l)])
+    = [Some (Ok (map_ranges (pmm_resolve size) l)); Some (Ok l)] /\
+  firstn (length h) (snd (msession h [MCall 3 size None a lo n; MCall 1 size None (length h) 0 (length l)])) = h.
+Proof.
+  intros Ha Hu l.
+  assert (Hs : forall f, heap_slice (h ++ [map_ranges f l]) (length h) 0 (length l) = map_ranges f l).
+  { intros f. unfold heap_slice. rewrite app_nth2, Nat.sub_diag by lia. cbn [nth skipn].
+    rewrite <- (map_ranges_length f l). apply firstn_all. }
+  destruct (resolve_unresolve_ranges size l Hu) as [R1 R2].
+  cbn [bind pmm_unresolve_ranges pmm_resolve_ranges] in R1, R2.
+  split; [|split].
+  - cbn [msession mop_step fst]. fold l.
+    change (pmm_apply 3 size None l) with (Ok (map_ranges (pmm_unresolve size) l)).
+    cbn [answer_array]. rewrite Hs.
+    change (pmm_apply 1 size None (map_ranges (pmm_unresolve size) l)) with (pmm_resolve_ranges size (map_ranges (pmm_unresolve size) l)).
+    unfold pmm_resolve_ranges. injection R1 as R1. rewrite R1. reflexivity.
+  - cbn [msession mop_step fst]. fold l.
+    change (pmm_apply 0 size None l) with (Ok (map_ranges (pmm_resolve size) l)).
+    cbn [answer_array]. rewrite Hs.
+    change (pmm_apply 2 size None (map_ranges (pmm_resolve size) l)) with (pmm_unresolve_ranges size (map_ranges (pmm_resolve size) l)).
+    unfold pmm_unresolve_ranges. injection R2 as R2. rewrite R2. reflexivity.
+  - apply mapper_session_frame. reflexivity.
+Qed.
+
+Lemma set_nth_other {A} (l : list A) i j x d : i <> j -> nth j (set_nth l i x) d = nth j l d.
+Proof.
+  revert i j. induction l as [|y t IH]; intros i j H; [destruct i; reflexivity|].
+  destruct i, j; cbn; try reflexivity; [congruence|]. apply IH. congruence.
+Qed.
+
+(** an answer is memory of its own: what the caller does to its list afterwards does not
+    reach the answer it was given (and a write into the answer does not reach the list) *)
+Lemma mapper_answer_private h a i r b :
+  a <> b -> nth b (heap_write h a i r) [] = nth b h [].
+Proof.
+  intros H. unfold heap_write. destruct (nth_error h a); [|reflexivity].
+  apply set_nth_other. exact H.
+Qed.
+
+Example mapper_session_example :
+  msession [[(4294901760, 16); (4294905856, 32); (7, 7)]]
+           [MCall 1 65536 None 0 0 2; MCall 1 65536 None 0 0 2; MCall 3 65536 None 1 0 2; MWrite 0 0 (1, 1)]
+  = ([Some (Ok [(0, 16); (4096, 32)]); Some (Ok [(0, 16); (4096, 32)]);
+      Some (Ok [(4294901760, 16); (4294905856, 32)]); None],
+     [[(1, 1); (4294905856, 32); (7, 7)]; [(0, 16); (4096, 32)]; [(0, 16); (4096, 32)];
+      [(4294901760, 16); (4294905856, 32)]]).
+Proof. reflexivity. Qed.
